@@ -313,7 +313,38 @@ def one_case(binp, c, work, tier):
     return obs
 
 
+def reader_race_stream(chk, binp):
+    """a long-lived reader polls while recorders write acknowledged statuses and are killed (no compaction): what the
+    reader's store answers afterwards must be the acknowledged status (it must not keep an older view)"""
+    import hist
+    cases = [hist.gen_killed_recorder_race_case(chk.rng, k, 250) for k in range(10 if chk.tier == "quick" else 50)]
+    results, rc, err = hist.run_cases(binp, cases)
+    if rc != 0:
+        chk.oblige("harness-run:hist-reader-race", False, err[-1500:]); return
+    n = 0
+    for c in cases:
+        r = results.get(c["id"])
+        if not r or r.get("panic"):
+            chk.oblige("harness-run:hist-reader-race:" + c["id"], False, json.dumps(r)[:300]); continue
+        spec = hist.Spec(c)
+        for i, (o, a) in enumerate(zip(c["ops"], r["answers"] or [])):
+            spec.apply(o)
+            if a.get("skip"):
+                continue
+            n += 1; chk.evaluations += 1
+            bad = next(iter(spec.check(a, i)), None)
+            if bad:
+                chk.violation("C07:acknowledged-status-hidden-from-long-lived-reader:" + bad[0],
+                              "%s (after op %d %s: the recorder was killed right after an acknowledged write while a reader was polling)" % (bad[1], i, json.dumps(o)),
+                              {"race_case": c, "op_index": i})
+                break
+    chk.stats = dict(getattr(chk, "stats", None) or {}, reader_race_answers=n)
+
+
 def run(chk, replay):
+    if replay and "race_case" in json.load(open(replay)).get("case", {}):
+        binp, out = common.build_harness("hist")
+        reader_race_stream(chk, binp); return
     chk.trusted = common.TRUSTED_COMMON + [
         "process crash = prefix of the mutating system calls, a write cut at any byte (SIGKILL on a local file system; NOT a power-loss model)",
         "strace 6.1 signal injection delivers SIGKILL before the k-th call executes (checked: the call's effect is absent)",
@@ -383,6 +414,8 @@ def run(chk, replay):
     if dis == 0:
         chk.oblige("correspondence:crash-states (every surviving directory = one of the model's crash states of the operation in flight)", True)
     chk.stats = stat
+    if not replay:
+        reader_race_stream(chk, binp)
     chk.samples = [{"kind": c["kind"], "victim": c["victim"], "points": [o["point"] for o in allobs.get(c["id"], [])][:12]} for c in cases[:3]]
     chk.rule = ("prior history of 1-5 completed runs (+updates) over 2-3 DAG files (names with spaces, dots, glob metacharacters, _c, UTF-8; "
                 "same-second starts); victim = a whole recording run (open, write x1-3, close) | manual update | rename | remove-old; the "
